@@ -9,16 +9,16 @@ CONSTANTS
   MIds = {1, 2, 3}
   MVoters = {1, 2, 3}
   MLearners = {}
-  PreVoteOn = TRUE
-  CheckQuorumOn = TRUE
-  MaxTerm = 3
-  MaxLog = 2
+  PreVoteOn = FALSE
+  CheckQuorumOn = FALSE
+  MaxTerm = 2
+  MaxLog = 3
   MaxNet = 4
   MaxCrashes = 0
   MaxProposals = 1
   MaxDepth = 60
   AllowDrop = TRUE
-  AllowDup = FALSE
+  AllowDup = TRUE
   AllowAsync = FALSE
   AllowCrash = FALSE
   PrintReplay = TRUE
@@ -26,13 +26,13 @@ CONSTANTS
   EagerReady = TRUE
   QuiescentTicks = TRUE
   MaxLeaderTicks = 1
-  TickNodes = {1, 2, 3}
+  TickNodes = {1, 2}
   MaxDrops = 2
   MaxTransfers = 0
   TransferTargets = {}
   MaxConf = 0
   ConfMenuIds = {}
-  MaxReads = 0
+  MaxReads = 2
   LazyApply = FALSE
   AllowCompact = FALSE
   ProposeAnywhere = FALSE
